@@ -47,6 +47,10 @@ pub enum Op {
     Freeze,
     /// one pass of the block-filter builder (it may lag behind the chain by any number of blocks and reorgs)
     FilterBuild,
+    /// one pass of the block-filter builder during which the chain moves on: right before the
+    /// builder handles the (`after`+1)-th block of the pass, the operations `inner` (deliveries and
+    /// stage steps) are executed. The builder works on the snapshot it took at the start of the pass.
+    FilterBuildRacing { after: usize, inner: Vec<Op> },
 }
 
 #[derive(Clone, Debug, Serialize, Deserialize)]
@@ -719,6 +723,24 @@ pub fn generate(seed: u64, prop: &str) -> Scenario {
             let at = r.idx(ops.len() + 1);
             ops.insert(at, Op::FilterBuild);
         }
+        // in half of the runs some stretches of the history happen in the MIDDLE of a builder pass
+        let mut rr = Rng::new(seed ^ 0xC19_4ACE);
+        if rr.chance(1, 2) {
+            for _ in 0..rr.urange(1, 4) {
+                if ops.len() < 4 {
+                    break;
+                }
+                let at = rr.idx(ops.len() - 1);
+                let mut inner = Vec::new();
+                let want = rr.urange(2, 14);
+                while inner.len() < want && at < ops.len() && matches!(ops[at], Op::Deliver { .. } | Op::StepPreload | Op::StepVerify | Op::Drain) {
+                    inner.push(ops.remove(at));
+                }
+                if !inner.is_empty() {
+                    ops.insert(at, Op::FilterBuildRacing { after: rr.urange(0, 8), inner });
+                }
+            }
+        }
         ops.push(Op::Drain);
         ops.push(Op::FilterBuild);
         if r.chance(1, 3) {
@@ -773,6 +795,70 @@ pub fn generate(seed: u64, prop: &str) -> Scenario {
             ops.push(Op::Drain);
         }
         if r2.chance(1, 2) {
+            let at = r2.idx(ops.len() + 1);
+            ops.insert(at, Op::Restart);
+        }
+    } else if prop == "C19" && Rng::new(seed ^ 0xC19_91A7).chance(1, 4) {
+        // planted shape "the chain leaves and comes back while the builder is busy": a chain A whose
+        // later blocks spend cells created by its earlier blocks; the builder starts a pass over A;
+        // in the middle of it a longer branch B (forking low on A) takes over; the pass goes on with
+        // the blocks of A it had planned; later A grows past B and is the main chain again
+        let mut r2 = Rng::new(seed ^ 0xC19_91A8);
+        cfg.permanent_difficulty = true;
+        cfg.genesis_epoch_len = *r2.pick(&[8u64, 12]);
+        cfg.epoch_duration_target = cfg.genesis_epoch_len * 8;
+        cfg.w_close = r2.range(1, 2);
+        cfg.w_far = cfg.w_close + r2.range(2, 6);
+        let na = r2.urange(7, 12); // A = blocks 1..=na
+        let f = r2.urange(0, 3); // B forks off A's block f (0 = genesis)
+        let nb = na - f + 1; // B is one block longer than A
+        let ext = r2.urange(2, 4); // later extension of A
+        tree.clear();
+        for i in 0..na {
+            let mut rec = gen_recipe(&mut r2, i as u64 + 1, true);
+            rec.uncles = 0;
+            rec.new_txs = rec.new_txs.max(2);
+            rec.propose = rec.propose.max(3);
+            rec.commit = rec.commit.max(3);
+            tree.push(TreeOp { parent: i, recipe: rec });
+        }
+        for j in 0..nb {
+            let mut rec = gen_recipe(&mut r2, 300 + j as u64, true);
+            rec.uncles = 0;
+            tree.push(TreeOp { parent: if j == 0 { f } else { na + j }, recipe: rec });
+        }
+        for j in 0..ext {
+            let mut rec = gen_recipe(&mut r2, 600 + j as u64, true);
+            rec.uncles = 0;
+            rec.commit = rec.commit.max(2);
+            tree.push(TreeOp { parent: if j == 0 { na } else { na + nb + j }, recipe: rec });
+        }
+        ops.clear();
+        // the builder has seen a prefix of A (or nothing) before
+        let seen = r2.urange(0, na / 2);
+        for b in 1..=na {
+            ops.push(Op::Deliver { b });
+            if b == seen {
+                ops.push(Op::Drain);
+                ops.push(Op::FilterBuild);
+            }
+        }
+        ops.push(Op::Drain);
+        let mut inner = Vec::new();
+        for j in 0..nb {
+            inner.push(Op::Deliver { b: na + 1 + j });
+        }
+        inner.push(Op::Drain);
+        ops.push(Op::FilterBuildRacing { after: r2.urange(0, 3), inner });
+        if r2.chance(1, 2) {
+            ops.push(Op::FilterBuild);
+        }
+        for j in 0..ext {
+            ops.push(Op::Deliver { b: na + nb + 1 + j });
+        }
+        ops.push(Op::Drain);
+        ops.push(Op::FilterBuild);
+        if r2.chance(1, 3) {
             let at = r2.idx(ops.len() + 1);
             ops.insert(at, Op::Restart);
         }
